@@ -270,6 +270,26 @@ theorem load_then_readback (pol : Pol) (s : Chip) (scpLen x y app buf : Nat) (en
     simp only [List.getElem?_map, List.getElem?_range hj, Option.map_some]
     rw [loaded_rows_out s buf _ app entries j hjb]
 
+/-- **Clear.** `clear_routing_table_entries` sends one `free_rtr_by_app` command; afterwards no row
+belongs to the application (its rows are free and unused) and every other row is unchanged. -/
+theorem clear_exact (pol : Pol) (s : Chip) (x y app : Nat) (ha : app < 256) :
+    (run pol (clearEntries x y app) s).2.2 = [clearReq x y app] ∧
+    ∀ j, ((s.rows j).owner = some app →
+            ((run pol (clearEntries x y app) s).1.rows j).owner = none ∧
+            ((run pol (clearEntries x y app) s).1.rows j).ent = none) ∧
+         ((s.rows j).owner ≠ some app → (run pol (clearEntries x y app) s).1.rows j = s.rows j) := by
+  have hw : (app <<< 8) ||| 5 = app * 256 + 5 := alloc_word app 5 (by decide)
+  have h1 : (app * 256 + 5) % 256 = 5 := by omega
+  have h2 : (app * 256 + 5) / 256 % 256 = app := by omega
+  have hstep : stepChip pol s (clearReq x y app) =
+      ({ s with rows := freeByApp s.rows app }, { arg1 := 0, data := [] }) := by
+    simp [stepChip, clearReq, opFreeRtrByApp, opAllocRtr, cmdAllocFree, hw, h1, h2]
+  simp only [clearEntries, run, hstep, true_and]
+  intro j
+  constructor
+  · intro h; simp [freeByApp, h]
+  · intro h; simp [freeByApp, h]
+
 /-- non-vacuity of the machine hypotheses: a first-fit policy is valid, and an empty router with
 `sv` pointers set up satisfies the state hypotheses -/
 def firstFit : Pol := fun rows _ n =>
